@@ -3983,6 +3983,10 @@ class PyCdlib:
         if self._initialized:
             raise pycdlibexception.PyCdlibInvalidInput('This object already has an ISO; either close it or create a new object')
 
+        # Start from a clean slate; an earlier new() or open() that was
+        # refused part of the way may have left some of its settings behind.
+        self._initialize()
+
         if interchange_level < 1 or interchange_level > 4:
             raise pycdlibexception.PyCdlibInvalidInput('Invalid interchange level (must be between 1 and 4)')
 
@@ -4275,6 +4279,9 @@ class PyCdlib:
         """
         if self._initialized:
             raise pycdlibexception.PyCdlibInvalidInput('This object already has an ISO; either close it or create a new object')
+
+        # Start from a clean slate (see new()).
+        self._initialize()
 
         self._open_fp_checked(fp)
 
